@@ -78,6 +78,12 @@ chk("C11", "fault_enumeration",
     "Trusted: x/crypto/openpgp + clearsign (sign and verify), fixture keys, the deb822 model. Real code: control.NewParagraphReader/NewDecoder/decodeClearsig/Signer.",
     "DESIGN.md §5 C11")
 
+chk("C09", "exploration",
+    "deterministic simulation: seeded values of probe struct types (every supported kind and tag) marshalled and unmarshalled through the simulated document store (sink/source chunk schedules and faults), with presence rules checked on the raw text, unknown-field pass-through under mutation, and a panic trap; tape minimisation and exact replay",
+    "Field-by-field equality after Marshal->Unmarshal for all kinds; omission/required/skip/rename rules checked on the written text; missing required input must fail; unknown fields must be re-emitted unchanged and in order while known fields show the struct's current values; Marshal of pointer fields must not panic; sink/source faults must be reported. Sampling: evidence, not proof.",
+    "Trusted: the value models in harness/c09.go, the dependency/arch models, simulated reader/writer. Real code: control.Marshal/Unmarshal/ConvertToParagraph/UnpackFromParagraph and the custom types' (Un)MarshalControl.",
+    "DESIGN.md §5 C09")
+
 def main():
     props = [json.loads(l) for l in open(os.path.join(HERE, "properties.jsonl"))]
     ids = [p["id"] for p in props]
